@@ -72,7 +72,10 @@ def check_no_pixel_dropped(R, F, ex, res, tag, nn):
             written = ZERO
             for a_ in anns:
                 if TR.classify(a_["ev"]).cls == "SPI_WRITE" and isinstance(a_["ev"].args[1], Ptr) and a_["ev"].args[1].meta is not None:
-                    written = written + a_["ev"].args[1].meta.poly()
+                    cc = ONE
+                    for c_ in a_["conds"]:
+                        cc = cc * c_          # a write inside a merged alternative counts only where it is taken
+                    written = written + cc * a_["ev"].args[1].meta.poly()
             ok = isinstance(i1, IntV)
             if ok:
                 d = f.simplify(i1.poly() - i0.poly() + written - nn * k)
@@ -83,7 +86,8 @@ def check_no_pixel_dropped(R, F, ex, res, tag, nn):
                  sample={"loop": lid.split("::")[-1], "pixels_taken": k, "staged_delta": repr(f.simplify(i1.poly() - i0.poly())) if isinstance(i1, IntV) else None})
     R.floor(tag + " staging-loop paths that take a pixel", nstaging, 1)
     # paths that leave a loop and reach the write (or the end) : nothing may be taken from the stream on the way
-    traces = [(o.state.trace, o.state.facts, "outcome") for o in res.outcomes if o.kind != "panic"]
+    # (error outcomes are prefixes - C12 - and may well end between taking a pixel and staging it)
+    traces = [(o.state.trace, o.state.facts, "outcome") for o in res.outcomes if o.kind != "panic" and C.result_variant(o.value) == 0]
     for lid, l in res.loops.items():
         for c in l["cont"]:
             traces.append((c["trace"], c["state"].facts, "loop@" + lid.split("@")[1].split("/")[0]))
@@ -270,7 +274,7 @@ def run(R):
             else:
                 check_repeat_total(R, F, ex, res, tag, nn)
             # (e) loop progress
-            R.floor(tag + " loops", len(res.loops), 2)
+            R.floor(tag + " loops", len(res.loops), 1)
             for lid, l in sorted(res.loops.items()):
                 where = "%s:%s" % (l["span"]["file"], l["span"]["line"]) if l.get("span") else lid
                 conts = l["cont"]
